@@ -65,7 +65,7 @@ class Scenario:
 
     def prefix(self):
         """Harness set-up: sessions for all tasks, initial entries, initial watchers."""
-        tasks = sorted(self.progs)
+        tasks = sorted(set(self.progs) | {t for ts in self.watchers.values() for t in ts})
         st = [{"c": "a", "line": "auth admin adminpwd"},
               {"c": "a", "line": "create-db d tok %s" % self.strategy},
               {"c": "a", "line": "use-db d tok"}]
@@ -98,7 +98,9 @@ class Scenario:
                 else:
                     tasks[t].append({"line": render.line_of(o), "op": o})
         return {"id": cid, "prefix": self.prefix(), "tasks": tasks, "schedule": schedule,
-                "policy": policy, "seed": seed, "meta": {"strategy": self.strategy, "scenario": self.sid}}
+                "policy": policy, "seed": seed,
+                "meta": {"strategy": self.strategy, "scenario": self.sid,
+                         "initwat": [[t, k] for k, ts in sorted(self.watchers.items()) for t in ts]}}
 
 
 def schedules_for(scenarios, wd, atomic, simulate=None, per_scenario_cap=None, rnd=None, timeout=600):
@@ -158,6 +160,7 @@ def normalize(raw_files, out_path, db="d"):
                     runs += 1
                     o["store"] = proj(raw["dump"])
                     o["strategy"] = raw.get("meta", {}).get("strategy", "none")
+                    o["initwat"] = raw.get("meta", {}).get("initwat", [])
                 elif ev == "call":
                     op = dict(norm.OP_DEFAULTS)
                     op.update(raw.get("op", {}))
